@@ -172,8 +172,143 @@ def load_case(rng, form, sort, n, n_part=None, skip=None, mismatch=None, ext_mod
             'expect': {'experiment': info['experiment_name'], 'stimuli': stim, 'rows': rows}}
 
 
+def _distinct_utv(rng, n):
+    """all entries different, so that a value attached to the wrong pair shows"""
+    m = n * (n - 1) // 2
+    return [rat(F(v, 64)) for v in rng.sample(range(1, 60 * m + 8), m)]
+
+
+def _reordered(rng, stim):
+    """the same stimuli in another order (for >= 3 stimuli every such order moves a pair)"""
+    r = rng.random()
+    if r < 0.25:
+        out = list(reversed(stim))
+    elif r < 0.5:
+        out = sorted(stim) if sorted(stim) != stim else stim[1:] + stim[:1]
+    elif r < 0.7:
+        i, j = rng.sample(range(len(stim)), 2)
+        out = list(stim)
+        out[i], out[j] = out[j], out[i]
+    else:
+        out = list(stim)
+        while out == stim:
+            rng.shuffle(out)
+    return out
+
+
+JSON_LATER = ['same', 'reorder', 'otherset', 'superset', 'subset', 'renamed_ext', 'nonma']
+
+
+def json_tasks_case(rng, sort, n, plan, ext_mode='ext'):
+    """single-participant multi-task .json whose LATER multi-arrangement tasks list
+    the same stimulus set in another order ('reorder'), other stimuli of the same number
+    ('otherset'), more ('superset'), fewer ('subset'), the same stems with another extension
+    ('renamed_ext'), or exactly the first list ('same'); 'nonma' = a task of another type.
+    Every task's `rdm` is laid out in that task's OWN stimulus order, with pairwise different
+    values.  `plan` is the list of task kinds; the first 'first' entry fixes the labels."""
+    name, info = make_name(rng, 'B', 'json')
+    stim = stimuli(rng, n, ext_mode)
+    tasks, rows = [], []
+    for t, what in enumerate(plan):
+        tn = token(rng)
+        if what == 'nonma':
+            task = {'task_type': rng.choice(['info', 'survey', 'tripletodd', None]), 'name': tn,
+                    'stimuli': rng.choice([[], stim, list(reversed(stim))]),
+                    'rdm': rng.choice([[], _distinct_utv(rng, n)])}
+            r = rng.random()
+            if r < 0.25:            # as Meadows writes an info task: no stimuli / rdm entries at all
+                task.update(bare='no_stimuli', stimuli=[], rdm=[])
+            elif r < 0.45:          # no 'task' entry: `task.get('task', {})`
+                task.update(bare='no_meta', task_type=None)
+            tasks.append(task)
+            continue
+        if what in ('first', 'same'):
+            st = list(stim)
+        elif what == 'reorder':
+            st = _reordered(rng, stim)
+        elif what == 'reorder_prev':    # the same (other) order as the previous arrangement task
+            prev = [x for x in tasks if x['task_type'] == 'multiarrange'][-1]['stimuli']
+            st = list(prev) if prev != stim else _reordered(rng, stim)
+        elif what == 'otherset':
+            st = list(stim)
+            for i in rng.sample(range(n), rng.randint(1, n)):
+                st[i] = 'zz' + token(rng, 2, 4) + '.png'
+            if rng.random() < 0.5:
+                rng.shuffle(st)
+        elif what == 'superset':
+            st = list(stim) + ['extra' + token(rng, 1, 3) + '.png']
+            if rng.random() < 0.5:
+                rng.shuffle(st)
+        elif what == 'subset':
+            st = list(stim)
+            del st[rng.randrange(n)]
+        elif what == 'renamed_ext':
+            st = [s_.split('.')[0] + '.tif' for s_ in stim]
+        else:
+            raise ValueError(what)
+        u = _distinct_utv(rng, len(st))
+        tasks.append({'task_type': 'multiarrange', 'name': tn, 'stimuli': st, 'rdm': u})
+        if st == stim:
+            rows.append({'participant': info['participant'], 'task': tn, 'task_index': t, 'utv': u})
+    return {'kind': 'meadows_load', 'fname': name, 'tasks': tasks, 'sort': sort, 'form': 'json',
+            'ext_mode': ext_mode, 'plan': list(plan),
+            # how the two arguments of load_rdms are passed
+            'path_type': rng.choice(['str', 'str', 'Path']),
+            'sort_type': rng.choice(['bool', 'bool', 'numpy', 'int']),
+            'expect': {'experiment': info['experiment_name'], 'stimuli': stim, 'rows': rows}}
+
+
+JSON_SKELETON = (
+    (True, 3, ['first', 'reorder']),
+    (False, 3, ['first', 'reorder']),
+    (False, 4, ['first', 'nonma', 'reorder', 'same']),
+    (True, 3, ['nonma', 'first', 'otherset', 'nonma', 'reorder']),
+    (True, 4, ['first', 'superset', 'reorder', 'subset']),
+    (False, 5, ['first', 'reorder', 'reorder', 'same']),
+    (True, 3, ['first', 'otherset']),
+    (False, 4, ['first', 'renamed_ext', 'nonma', 'same']),
+    (True, 2, ['first', 'reorder', 'same']),
+    (False, 6, ['first', 'same', 'nonma', 'reorder']),
+    (False, 4, ['first', 'reorder', 'reorder_prev']),
+    (True, 3, ['first', 'nonma', 'reorder', 'nonma', 'reorder_prev', 'same']),
+)
+JSON_ARGS = (('str', 'bool'), ('Path', 'numpy'), ('str', 'int'), ('Path', 'bool'))
+
+
+def gen_json_tasks(rng, k):
+    for i, (sort, n, plan) in enumerate(JSON_SKELETON):
+        c = json_tasks_case(rng, sort, n, plan)
+        c['path_type'], c['sort_type'] = JSON_ARGS[i % len(JSON_ARGS)]
+        if i in (2, 3):        # the skeleton reaches both forms of a bare task
+            for x in c['tasks']:
+                if x['task_type'] != 'multiarrange':
+                    x.pop('bare', None)
+                    if i == 2:
+                        x.update(bare='no_meta', task_type=None)
+                    else:
+                        x.update(bare='no_stimuli', stimuli=[], rdm=[])
+        yield c
+    for _ in range(10 * k):
+        n_ma = rng.randint(2, 4)
+        later = [rng.choice(['same', 'reorder', 'reorder', 'reorder', 'otherset', 'superset', 'subset',
+                             'renamed_ext', 'reorder_prev']) for _ in range(n_ma - 1)]
+        n = rng.randint(3, 6)
+        plan = ['first'] + later
+        out = []
+        for x in plan:                     # tasks of another type before / between / after
+            while rng.random() < 0.3:
+                out.append('nonma')
+            out.append(x)
+        if rng.random() < 0.3:
+            out.append('nonma')
+        yield json_tasks_case(rng, rng.random() < 0.5, n, out,
+                              ext_mode=rng.choice(['ext', 'ext', 'ext', 'none', 'mixed']))
+
+
 def gen(rng, tier):
     k = 1 if tier == 'quick' else 25
+    # --- multi-task json files with later tasks in another order / over another set (round 5)
+    yield from gen_json_tasks(rng, k)
     # --- names
     for _ in range(12 * k):
         for shape in 'ABC':
@@ -235,6 +370,11 @@ def write_file(case):
                 {'status': 'finished', 'task': {'name': t['name'], 'task_type': t['task_type']},
                  'stimuli': [{'id': str(i), 'name': s} for i, s in enumerate(t['stimuli'])],
                  'rdm': [_fl(x) for x in t['rdm']]} for t in case['tasks']]}
+            for t, d in zip(case['tasks'], doc['tasks']):
+                if t.get('bare') == 'no_meta':
+                    del d['task']
+                elif t.get('bare') == 'no_stimuli':
+                    del d['stimuli'], d['rdm']
         with open(path, 'w', encoding='utf-8') as fh:
             json.dump(doc, fh)
     return path
@@ -255,7 +395,15 @@ def impl(case):
     try:
         with warnings.catch_warnings():
             warnings.simplefilter('ignore')
-            rdms = meadows.load_rdms(path, sort=case['sort'])
+            sort = case['sort']
+            if case.get('sort_type') == 'numpy':
+                sort = np.bool_(sort)
+            elif case.get('sort_type') == 'int':
+                sort = int(sort)
+            if case.get('path_type') == 'Path':
+                import pathlib
+                path = pathlib.Path(path)
+            rdms = meadows.load_rdms(path, sort=sort)
     except Exception as exc:  # noqa: BLE001
         return {'exc': type(exc).__name__}
     rd = rdms.rdm_descriptors
@@ -284,6 +432,91 @@ def result(case, answers):
     return a
 
 
+def oracle_json(case, out):
+    """Independent judgement of a loaded multi-task .json: the FILE is read back from disk (not the
+    generator's bookkeeping) and, for every RDM of the result, the task it claims to come from
+    (`task_index`) is looked up in the file.  Demanded: that task is a multi-arrangement task with
+    the result's name; its stimulus set is the label set; and for every pair of labels the RDM's
+    value is the file's value of that task for these two stimuli — located through the task's OWN
+    stimulus order.  A later task may be skipped unless its stimulus list is exactly the first
+    one's (those must be loaded); tasks over another set must not be loaded."""
+    path = os.path.join(tmpdir(), case['fname'])
+    with open(path, encoding='utf-8') as fh:
+        doc = json.load(fh)
+    tasks = doc['tasks']
+    ma = [t for t, task in enumerate(tasks)
+          if isinstance(task.get('task'), dict) and task['task'].get('task_type') == 'multiarrange']
+    feats = {'meadows_form': 'json', 'n_tasks': len(tasks), 'n_ma_tasks': len(ma), 'sort': case['sort']}
+    if not ma:
+        return None
+    if 'exc' in out:
+        return {'what': 'supported Meadows file rejected', 'observed': out, 'expected': 'RDMs',
+                'features': feats}
+
+    def names(t):
+        return [s_['name'] for s_ in tasks[t]['stimuli']]
+
+    def stems(t):
+        return [x.split('.')[0] for x in names(t)]
+    first = ma[0]
+    must = [t for t in ma if names(t) == names(first)]
+    may = [t for t in ma if sorted(stems(t)) == sorted(stems(first))
+           and len(set(stems(t))) == len(stems(t))]
+    labels = sorted(stems(first)) if case['sort'] else stems(first)
+    feats['n_reordered'] = len([t for t in may if names(t) != names(first)])
+    if out['conds'] != labels:
+        return {'what': 'stimulus labels differ from the first multi-arrangement task of the file '
+                        '(or are not sorted on request)', 'observed': out['conds'], 'expected': labels,
+                'features': feats}
+    tix = out['task_index']
+    if tix is None or out['task'] is None or not (len(tix) == len(out['task']) == len(out['dissim'])
+                                                  == len(out['participant'])):
+        return {'what': 'descriptors and RDMs of the json file differ in number',
+                'observed': {'task_index': tix, 'task': out['task'], 'n_rdms': len(out['dissim'])},
+                'expected': 'one task, task_index, participant per RDM', 'features': feats}
+    if any(b <= a for a, b in zip(tix, tix[1:])) or any(t not in ma for t in tix):
+        return {'what': 'task_index is not an increasing list of multi-arrangement tasks of the file',
+                'observed': tix, 'expected': f'subset of {ma}', 'features': feats}
+    missing = [t for t in must if t not in tix]
+    if missing:
+        return {'what': 'a task with exactly the first task\'s stimulus list was not loaded',
+                'observed': tix, 'expected': must, 'features': feats}
+    n = len(labels)
+    for r, t in enumerate(tix):
+        task = tasks[t]
+        if out['task'][r] != task['task']['name']:
+            return {'what': 'task descriptor differs from the name of the task at task_index',
+                    'observed': out['task'][r], 'expected': task['task']['name'], 'features': feats}
+        if t not in may:
+            return {'what': 'a task over other stimuli than the labels was loaded',
+                    'observed': {'task_index': t, 'stimuli': names(t)}, 'expected': 'skipped',
+                    'labels': labels, 'features': feats}
+        own = stems(t)                       # this task's own order
+        m = len(own)
+        file_map, k = {}, 0
+        for i in range(m):
+            for j in range(i + 1, m):
+                file_map[frozenset((own[i], own[j]))] = float(task['rdm'][k])
+                k += 1
+        row = out['dissim'][r]
+        if len(row) != n * (n - 1) // 2:
+            return {'what': 'RDM has the wrong number of entries', 'observed': len(row),
+                    'expected': n * (n - 1) // 2, 'features': feats}
+        k = 0
+        for i in range(n):
+            for j in range(i + 1, n):
+                want = file_map[frozenset((labels[i], labels[j]))]
+                if abs(row[k] - want) > 1e-12:
+                    return {'what': 'dissimilarity of a stimulus pair differs from the file\'s value for '
+                                    'that pair in that task',
+                            'observed': row[k], 'expected': want, 'pair': [labels[i], labels[j]],
+                            'task_index': t, 'task': task['task']['name'],
+                            'task_stimulus_order': own, 'labels': labels,
+                            'features': dict(feats, reordered_task_loaded=names(t) != names(first))}
+                k += 1
+    return None
+
+
 def oracle(case):
     out = impl(case)
     if case['kind'] == 'meadows_name':
@@ -297,6 +530,10 @@ def oracle(case):
     exp = case.get('expect')
     if exp is None:
         return None
+    if case['form'] == 'json':
+        bad = oracle_json(case, out)
+        if bad:
+            return bad
     feats = {'meadows_form': case['form'], 'n_stimuli': len(exp['stimuli']), 'n_rdms': len(exp['rows'])}
     if 'exc' in out:
         return {'what': 'supported Meadows file rejected', 'observed': out,
@@ -328,11 +565,15 @@ def oracle(case):
         if row['task_index'] is not None and (out['task_index'] or [None] * (r + 1))[r] != row['task_index']:
             return {'what': 'task index differs from the file', 'observed': out['task_index'],
                     'expected': [x['task_index'] for x in exp['rows']], 'features': feats}
-        # labelled map of the file: pair of stimulus names -> value
+        # labelled map of the file: pair of stimulus names -> value; a row may carry its own
+        # stimulus order (multi-participant .mat: one `stimuli_<participant>` variable each)
+        own = [s.split('.')[0] for s in row['stimuli']] if row.get('stimuli') else stems
+        if row.get('stimuli'):
+            feats['participant_stimulus_order_differs'] = own != stems
         file_map, k = {}, 0
         for i in range(n):
             for j in range(i + 1, n):
-                file_map[frozenset((stems[i], stems[j]))] = _fl(row['utv'][k])
+                file_map[frozenset((own[i], own[j]))] = _fl(row['utv'][k])
                 k += 1
         k = 0
         if len(out['dissim'][r]) != n * (n - 1) // 2:
@@ -348,6 +589,51 @@ def oracle(case):
                             'observed': got, 'expected': want,
                             'pair': [out['conds'][i], out['conds'][j]], 'features': feats}
     return None
+
+
+def json_tags(case):
+    """tags of a multi-task json, computed from the tasks themselves (not from the plan)"""
+    ma = [(t, x) for t, x in enumerate(case['tasks']) if x['task_type'] == 'multiarrange']
+    if len(ma) < 2:
+        return []
+    b = []
+    t0, first = ma[0]
+    st0 = [s.split('.')[0] for s in first['stimuli']]
+    seen_reorder = False
+    for t, x in ma[1:]:
+        st = [s.split('.')[0] for s in x['stimuli']]
+        if x['stimuli'] == first['stimuli']:
+            b.append('json:task-same')
+            if seen_reorder:
+                b.append('json:same-after-reordered')
+        elif sorted(x['stimuli']) == sorted(first['stimuli']):
+            seen_reorder = True
+            b.append('json:task-reordered')
+            b.append('json:reordered-sort' if case['sort'] else 'json:reordered-nosort')
+            if len(st0) >= 3:
+                b.append('json:reordered-3plus')
+        elif set(st0) < set(st):
+            b.append('json:task-superset')
+        elif set(st) < set(st0):
+            b.append('json:task-subset')
+        elif sorted(st) == sorted(st0):
+            b.append('json:task-renamed-ext')
+        else:
+            b.append('json:task-other-set')
+        if any(y['task_type'] != 'multiarrange' for y in case['tasks'][t0 + 1:t]):
+            b.append('json:nonma-between')
+    b.append('json:ma-tasks-%d' % min(len(ma), 4))
+    for (_, x), (_, y) in zip(ma[1:], ma[2:]):
+        if x['stimuli'] == y['stimuli'] != first['stimuli'] and sorted(x['stimuli']) == sorted(first['stimuli']):
+            b.append('json:reordered-repeat')
+    for x in case['tasks']:
+        if x.get('bare'):
+            b.append('json:bare-' + x['bare'])
+    if case.get('path_type') == 'Path':
+        b.append('json:arg-pathlib')
+    if case.get('sort_type') in ('numpy', 'int'):
+        b.append('json:arg-sort-' + case['sort_type'])
+    return sorted(set(b))
 
 
 def feats(case, impl_res):
@@ -368,6 +654,7 @@ def feats(case, impl_res):
             if any(t['task_type'] == 'multiarrange' and t['stimuli'] != case['expect']['stimuli']
                    for t in case['tasks']):
                 b.append('load:json_mismatch')
+            b.extend(json_tags(case))
     return {'kind': 'meadows_load', 'meadows_form': case['form'], 'sort': case['sort'],
             'n_stimuli': len(case['expect']['stimuli']) if case.get('expect') else None,
             'n_rdms': len(case['expect']['rows']) if case.get('expect') else None,
@@ -378,4 +665,11 @@ BRANCHES = ['meadows:A', 'meadows:B', 'meadows:C', 'meadows:bad', 'load:mat1', '
             'load:json', 'load:sort', 'load:nosort', 'load:rej_mat_multitask',
             'load:rej_json_single', 'load:rej_json_multi', 'load:rej_type',
             'load:rej_missing_var', 'load:rej_json_structure', 'load:two_stimuli',
-            'load:json_skip', 'load:json_mismatch', 'load:noext_mat', 'load:noext_json']
+            'load:json_skip', 'load:json_mismatch', 'load:noext_mat', 'load:noext_json',
+            # round 5: later multi-arrangement tasks of a json in another order / over another set
+            'json:task-reordered', 'json:task-other-set', 'json:task-superset', 'json:task-subset',
+            'json:task-same', 'json:task-renamed-ext', 'json:same-after-reordered',
+            'json:reordered-sort', 'json:reordered-nosort', 'json:reordered-3plus',
+            'json:nonma-between', 'json:ma-tasks-2', 'json:ma-tasks-3', 'json:ma-tasks-4',
+            'json:reordered-repeat', 'json:bare-no_meta', 'json:bare-no_stimuli', 'json:arg-pathlib',
+            'json:arg-sort-numpy', 'json:arg-sort-int']
